@@ -7,6 +7,7 @@ Driver for C07.  Input lines (written by harness/src/bin/c07.rs):
     dump <id> hasext=<0|1>  … dump_tree lines …  enddump
     arrcase <id> / arrop <op…> / arrreal <size> <cap> c0 c1 … / arrend <id> ops=.. answered=..
     inlq <id> pb pr pc sb sr sc la | inl can=.. inline=.. rb=pb pr pc sb sr sc la
+    bitsq <id> | bits inline=.. pb=.. pr=.. pc=.. sb=.. la=.. links=.. maxlinks=..
 
 Output: `<id> kind=<hist|dump|arr|inl> corr=<ok|na|DIFF:…> judge=<ok|FAIL:…> …`.
 -/
@@ -140,6 +141,18 @@ def step (s : St) (line : String) : IO St := do
       else if natOf (kvGet ws "allocs") + natOf (kvGet ws "copyallocs") != natOf (kvGet ws "frees") then "FAIL:ess:allocations-not-balanced"
       else "ok"
     IO.println s!"{id} kind=ess corr={corr} judge={j} len={len}"
+    return s
+  | "bitsq" :: id :: rest =>
+    -- compile-time facts of the real headers measured through the unity build, against the widths
+    -- the theorems are about (`widths`) and the generated MAX_LINK_COUNT
+    let r := rest.drop 2
+    let w := widths
+    let want := [("pb", 2 ^ w.padding_bytes - 1), ("pr", 2 ^ w.padding_rows - 1), ("pc", 2 ^ w.padding_columns - 1),
+                 ("sb", 2 ^ w.size_bytes - 1), ("la", 2 ^ w.lookahead_bytes - 1), ("links", MAX_LINK_COUNT), ("maxlinks", MAX_LINK_COUNT),
+                 ("inline", 1), ("sym300inline", 0), ("sym300rb", 300), ("extinline", 0)]
+    let bad := want.filter fun (k, v) => kvGet r k != toString v
+    let corr := if bad.isEmpty then "ok" else "DIFF:" ++ ",".intercalate (bad.map fun (k, v) => s!"{k}:model:{v}:real:{kvGet r k}")
+    IO.println s!"{id} kind=bits corr={corr} judge=ok"
     return s
   | "inlq" :: id :: rest =>
     let (q, r) := rest.span (· != "|")
